@@ -87,14 +87,14 @@ class App:
         from ombott import Ombott
         self.ctx = ctx
         self.app = Ombott()
-        self.trace = []
+        self.box = {'t': []}      # shared with a clone (see C11._fresh_from) so handlers log to whoever dispatches
         self.fn = {}
         self.fn_id = {}
 
     def handler(self, h):
         if ('h', h) not in self.fn:
             def f(**kw):
-                self.trace.append(['handler', h, sorted([cps(k), enc_value(v)] for k, v in kw.items())])
+                self.box['t'].append(['handler', h, sorted([cps(k), enc_value(v)] for k, v in kw.items())])
                 return 'ok'
             self.fn['h', h] = f
             self.fn_id[id(f)] = h
@@ -104,9 +104,9 @@ class App:
         if ('k', h) not in self.fn:
             def f(prefix, values=None):
                 if values is None:
-                    self.trace.append(['hook', h, cps(prefix)])
+                    self.box['t'].append(['hook', h, cps(prefix)])
                 else:
-                    self.trace.append(['partial', h, cps(prefix), [enc_value(v) for v in values]])
+                    self.box['t'].append(['partial', h, cps(prefix), [enc_value(v) for v in values]])
                     return 'partial'
             self.fn['k', h] = f
             self.fn_id[id(f)] = h
@@ -191,7 +191,7 @@ class App:
         else:
             direct = dict(kind=404, hooks=[[p, self.hid_of(hp[0]), self.hid_of(hp[1])] for p, hp in err[2]['hooks']])
         # through WSGI
-        self.trace = []
+        self.box['t'] = []
         got = {}
 
         def start_response(status, headers, exc_info=None):
@@ -205,11 +205,11 @@ class App:
         body = app(env, start_response)
         for _ in body:
             pass
-        w = dict(status=got.get('status'), calls=self.trace)
+        w = dict(status=got.get('status'), calls=self.box['t'])
         if got.get('status') == 405:
             allow = [v for k, v in got['headers'] if k.lower() == 'allow']
             w['allow'] = cps(allow[0]) if len(allow) == 1 else ['missing-or-duplicate', len(allow)]
-        self.trace = []
+        self.box['t'] = []
         return dict(direct=direct, wsgi=w)
 
 
